@@ -24,12 +24,9 @@ func genConfig(r *sim.Rand, tier string) sim.Config {
 	} else {
 		c["fd"] = int64(r.Range(0, 8))
 	}
-	switch r.Weighted(10, 30, 60) {
-	case 0:
-		c["start"] = 0
-	case 1:
+	if r.Pct(35) {
 		c["start"] = 1
-	default:
+	} else {
 		c["start"] = int64(r.Range(2, 40))
 	}
 	c["prelude"] = int64(r.Range(0, 8))
